@@ -10,13 +10,18 @@
 //! `Return` at non-zero relative depth.  The global machine of Thm/C15Marks.lean is then run by the driver
 //! (`wfm.run`) on the real list along the pcs the real VM visited: its absolute depths and its two address
 //! stacks are compared with the real ones before every executed instruction, across every restoring exit.
+//!
+//! Handled errors (families `faults`, `arg-faults` = gen_prog::arg_fault_programs, and whatever the other programs raise):
+//! at the resume point no stack may be lower than base + certificate, the context (argument) stack — hook field
+//! `ctx_states` — must be EXACTLY base + certificate with a normal state on top (the clean-up after a handled error drops
+//! the argument-collecting states of the abandoned calls), and a VM panic after a handled error is a failure.
 
 use std::cell::RefCell;
 use std::rc::Rc;
 
 use rb_harness::corpus;
 use rb_harness::driver::ask;
-use rb_harness::gen_prog::{generate, Opts};
+use rb_harness::gen_prog::{Ext, Opts, arg_fault_programs, generate_ext};
 use rb_harness::instr_sx;
 use rb_harness::json::J;
 use rb_harness::report::{Failure, Kind, Report};
@@ -44,6 +49,8 @@ struct Snap {
     /// 0 = none, 1 = resume next, 2 = address
     handler_kind: u8,
     handler_address: usize,
+    /// the top state of `Context.states` is an argument-collecting state (hook: `ctx_states[..].1`)
+    top_collecting: bool,
 }
 
 impl Snap {
@@ -227,13 +234,22 @@ fn marks_program(rng: &mut Rng) -> String {
         main_routines.push(r);
         main_routines.extend(extra);
     }
-    let through_gosub = g.rng.chance(1, 4);
+    let through_gosub = g.rng.chance(1, 3);
     let d = g.rng.below(3) as u32;
+    // (after a wave-9 seed) the module-level routine that holds the call RETURNs from inside its own FOR / SELECT CASE /
+    // WHILE nest, behind the call: the procedure may have been left with a GOSUB of its own pending, and the heights
+    // this RETURN restores must be those of ITS GOSUB
+    let return_inside = through_gosub && d > 0 && g.rng.chance(2, 3);
+    if return_inside {
+        caller.push(if g.rng.chance(1, 2) { "RETURN".to_owned() } else { "IF C% >= 2 THEN RETURN".to_owned() });
+    }
     let wrapped = g.wrap(d, caller);
     if through_gosub {
-        // the call itself sits in a module-level routine
+        // the call itself sits in a module-level routine; the GOSUB to it is issued inside 0..2 constructs
         let l = g.fresh("Mc");
-        lines.push(format!("GOSUB {}", l));
+        let ds = g.rng.below(3) as u32;
+        let site = g.wrap(ds, vec![format!("GOSUB {}", l), "PRINT \"back\"; C%".to_owned()]);
+        lines.extend(site);
         let mut r = vec![format!("{}:", l)];
         r.extend(wrapped);
         r.push("RETURN".to_owned());
@@ -513,10 +529,48 @@ fn main() {
         if k % 3 == 0 {
             o.faults = true;
         }
-        let (text, _feats) = generate(&mut rng, &o);
+        // labels inside blocks with jumps to them; RESUME label targets outside FOR / SELECT CASE only (see below)
+        let (text, feats) = generate_ext(&mut rng, &o, &Ext { block_labels: true, resume_label_in_for_select: false });
+        // how many of the generated programs have a label inside a block with a jump to it (after a wave-9 seed)
+        let mut any = false;
+        for f in feats.iter().filter(|f| f.starts_with("label-in-") || f.starts_with("jump-") || f.starts_with("resume-label-")) {
+            rep.bump(&format!("generated.feature.{}", f));
+            any = true;
+        }
+        if any {
+            rep.bump("generated.feature.any-block-label");
+        }
         programs.push((text, "generated"));
     }
     rep.bump_by("programs.generated", n_gen as u64);
+    // the directed family `block-labels` of gen_prog.rs (a label inside a block of every kind, a GOTO / RESUME label to it
+    // from the same block, a sibling block or a nested construct); quick: a third of the combinations (which third depends
+    // on the seed), thorough: all
+    {
+        let all = rb_harness::gen_prog::block_label_family();
+        let n_all = all.len();
+        let offset = (rng.seed() % 3) as usize;
+        let mut n = 0u64;
+        for (i, (name, t)) in all.into_iter().enumerate() {
+            // name = host/layout/nested construct/jump/context.  The checkers take a RESUME label target for the entry
+            // of an activation at relative depth zero: a target inside a FOR body or a SELECT CASE block is outside
+            // their fragment (the VM cuts the stacks to the label's recorded depths there, 1a4d83d); C08 runs those
+            let f: Vec<&str> = name.split('/').collect();
+            let in_fragment = f[3] == "goto" || (f[4] == "top" && !matches!(f[0], "case" | "case-else" | "for"));
+            if !in_fragment {
+                rep.bump("programs.block-labels.skipped.resume-label-target-inside-for-or-select");
+                continue;
+            }
+            if thorough || i % 3 == offset {
+                programs.push((t, "block-labels"));
+                n += 1;
+            }
+        }
+        rep.bump_by("programs.block-labels", n);
+        if thorough {
+            rep.exhaustive_parts.push(format!("block-labels: all {} combinations of host block x layout x nested construct x GOTO / RESUME label x context", n_all));
+        }
+    }
     let n_grid = if thorough { 1500 } else { 150 };
     for _ in 0..n_grid {
         programs.push((rb_harness::gen_prog::grid(&mut rng), "grid"));
@@ -530,10 +584,13 @@ fn main() {
     // quick: a third of the combinations (which third depends on the seed); thorough: all of them
     let all_faults = fault_programs();
     let n_all_faults = all_faults.len();
+    // (the handler mode is the innermost loop of the family, three values: `i % 3` alone would give a quick run one
+    // handler mode only; `i / 3` rotates the choice from combination to combination)
     let offset = (rng.seed() % 3) as usize;
     let mut n_faults = 0u64;
-    for (i, (_, t)) in all_faults.into_iter().enumerate() {
-        if thorough || i % 3 == offset {
+    for (i, (name, t)) in all_faults.into_iter().enumerate() {
+        if thorough || (i + i / 3) % 3 == offset {
+            rep.bump(&format!("faults.mode.{}", name.rsplit('/').next().unwrap_or("?")));
             programs.push((t, "faults"));
             n_faults += 1;
         }
@@ -541,6 +598,30 @@ fn main() {
     rep.bump_by("programs.faults", n_faults);
     if thorough {
         rep.exhaustive_parts.push(format!("faults: all {} combinations of position x fault x context x handler mode", n_all_faults));
+    }
+    // family `arg-faults` (gen_prog::arg_fault_programs): a fault raised inside an argument list; the programs without a
+    // handler end at the fault and have nothing to follow (C08 runs them); quick: a sixth of the rest, rotated so
+    // that every slice has every host, fault, context and handler mode
+    let all_arg_faults: Vec<(String, String)> = arg_fault_programs().into_iter().filter(|(n, _)| !n.ends_with("/no-handler")).collect();
+    let n_all_arg_faults = all_arg_faults.len();
+    let offset6 = (rng.seed() % 6) as usize;
+    let mut n_arg_faults = 0u64;
+    for (i, (name, t)) in all_arg_faults.into_iter().enumerate() {
+        // 24 = contexts x handler modes per (host, fault)
+        if thorough || (i + i / 24 + i / 4) % 6 == offset6 {
+            let mut parts = name.split('/');
+            let (host, fault, ctx, mode) = (parts.next().unwrap_or("?"), parts.next().unwrap_or("?"), parts.next().unwrap_or("?"), parts.next().unwrap_or("?"));
+            rep.bump(&format!("arg-faults.host.{}", host));
+            rep.bump(&format!("arg-faults.fault.{}", fault));
+            rep.bump(&format!("arg-faults.context.{}", ctx));
+            rep.bump(&format!("arg-faults.mode.{}", mode));
+            programs.push((t, "arg-faults"));
+            n_arg_faults += 1;
+        }
+    }
+    rep.bump_by("programs.arg-faults", n_arg_faults);
+    if thorough {
+        rep.exhaustive_parts.push(format!("arg-faults: all {} combinations of host x fault x context x handler mode (without the no-handler mode)", n_all_arg_faults));
     }
 
     // compile everything with the real generator
@@ -551,7 +632,7 @@ fn main() {
             Ok(Ok((res, udt))) => compiled.push((text.clone(), *origin, res, udt)),
             Ok(Err(_)) => {
                 rep.bump("rejected-by-front-end");
-                if *origin == "faults" || *origin == "marks" {
+                if *origin == "faults" || *origin == "marks" || *origin == "arg-faults" || *origin == "block-labels" {
                     rep.case(Some(text.clone()));
                     rep.fail(Failure {
                         kind: Kind::ModelVsImpl,
@@ -754,6 +835,7 @@ fn main() {
                     err_addr: s.last_error_address,
                     handler_kind: s.handler_kind,
                     handler_address: s.handler_address,
+                    top_collecting: s.ctx_states.last().is_some_and(|st| st.1),
                 });
             }
         });
@@ -798,7 +880,7 @@ fn main() {
         };
         let mut resume_check = false;
         let mut handled_errors = 0u64;
-        let is_family_faults = origin == "faults";
+        let is_family_faults = origin == "faults" || origin == "arg-faults";
         for (idx, sn) in trace.iter().enumerate() {
             let (pc, d) = (&sn.pc, &sn.d);
             let Some(Some(rel)) = cert.get(*pc) else {
@@ -837,6 +919,27 @@ fn main() {
                             ),
                             expected: "where execution continues after a handled error every stack holds at least what the code from there on is certified to find (no later pop of something that is not there / that belongs to an enclosing construct)".into(),
                             note: "a resume point placed before the pops of something the failed statement never pushed".into(),
+                        });
+                        break;
+                    }
+                    // The context stack (`Context.states`: one state per running procedure / built-in, one per call whose
+                    // arguments are being collected) is the VM's argument stack.  Unlike the operands and variable paths
+                    // of an abandoned statement, the states of the abandoned call(s) are dropped by the clean-up after a
+                    // handled error (`abandon_failed_call`, `push_error_handler_context`): where execution continues the
+                    // count must be exactly base + certificate, and the state on top must be the running activation's own
+                    // (normal) state, not an argument-collecting one.  A state left behind is popped by the wrong party:
+                    // the procedure's `PopStack`, or nobody (the stack then grows with the iteration count).
+                    if base.c - b2.c > 0 || sn.top_collecting {
+                        rep.fail(Failure {
+                            kind: Kind::ImplVsProperty,
+                            signature: (if sn.top_collecting { "dynamic:resume-point-argument-state-left" } else { "dynamic:resume-point-excess:context" }).into(),
+                            input: text.clone(),
+                            implementation: format!(
+                                "execution continues after a handled error at pc {} with depths {:?} (top context state collecting arguments: {}); the certificate there is {:?} on activation base {:?}",
+                                pc, d, sn.top_collecting, rel, b2
+                            ),
+                            expected: "where execution continues after a handled error the context (argument) stack holds exactly what the activation had before the failed statement: the argument-collecting states of the abandoned calls are gone".into(),
+                            note: "whatever a statement pushes on the argument stack is popped again, also when the statement is abandoned at a handled error".into(),
                         });
                         break;
                     }
@@ -973,16 +1076,29 @@ fn main() {
                     note: "the family or the detection of error edges is off".into(),
                 });
             }
-            if run.is_err() {
-                rep.fail(Failure {
-                    kind: Kind::ImplVsProperty,
-                    signature: "dynamic:vm-panic-after-handled-error".into(),
-                    input: text.clone(),
-                    implementation: "the VM panicked (e.g. `value_stack underflow!`)".into(),
-                    expected: "no instruction after a handled error underflows a stack".into(),
-                    note: String::new(),
-                });
-            }
+        }
+        // (any origin: a panic of the VM after an error was handled is a pop of something that is not there / not the
+        // popping party's — `value_stack underflow!`, `Expected normal state`)
+        if run.is_err() && (is_family_faults || handled_errors > 0) {
+            rep.fail(Failure {
+                kind: Kind::ImplVsProperty,
+                signature: "dynamic:vm-panic-after-handled-error".into(),
+                input: text.clone(),
+                implementation: "the VM panicked (e.g. `value_stack underflow!`, `Expected normal state`)".into(),
+                expected: "no instruction after a handled error underflows a stack or pops a state of another kind".into(),
+                note: format!("origin={}", origin),
+            });
+        }
+        if origin == "block-labels" && run.is_err() {
+            // RESUME label is not followed by the depth oracle above: what it restores shows when the run goes on
+            rep.fail(Failure {
+                kind: Kind::ImplVsProperty,
+                signature: "dynamic:vm-panic-in-block-labels-program".into(),
+                input: text.clone(),
+                implementation: "the VM panicked (e.g. `value_stack underflow!`)".into(),
+                expected: "no instruction of a run that jumps (GOTO / RESUME label) to a label inside a block underflows a stack".into(),
+                note: String::new(),
+            });
         }
         rep.bump("dynamic.programs-traced");
         // the global machine of Thm/C15Marks.lean on the same observations (up to the first handled error)
